@@ -32,6 +32,8 @@ func registerMore(m map[string]propSpec) {
 		{Harness: "stublife", Overlay: "base", Name: "cuts", Shards: 8},
 		{Harness: "stublife", Overlay: "base", Name: "histories", Shards: 8},
 	}}
+	m["C18"] = propSpec{Level: "fault_enumeration", Engines: []engine{{Harness: "procs", Overlay: "base", Shards: 2}}}
+	m["C20"] = propSpec{Level: "model_checking", Engines: []engine{{Harness: "samples", Overlay: "base"}}}
 	m["C06"] = propSpec{Level: "model_checking", Engines: []engine{
 		{Harness: "adapt", Overlay: "base", Name: "masks"},
 		{Harness: "adapt", Overlay: "base", Name: "order"},
